@@ -1512,4 +1512,50 @@ theorem C08_expand_zero_count_refuted :
         (fun items => (flatP items).map PVal.toVal)
       = expand ([PTok.num 1, PTok.rep none, PTok.rep (some 0), PTok.rep none].map PTok.toEntry)) := by decide
 
+/-! ## Own nodes standing in for copies (`_keep_own_nodes`) -/
+
+theorem keepZip_vals : ∀ (own vals : List Leaf), (keepZip own vals).map (·.val) = vals.map (·.val)
+  | _, [] => by cases ‹List Leaf› <;> simp [keepZip]
+  | [], v :: vs => by simp [keepZip]
+  | o :: own, v :: vs => by
+    simp only [keepZip, List.map_cons, keepZip_vals own vs, List.cons.injEq, and_true]
+    split
+    · rename_i h
+      simp only [Bool.and_eq_true, beq_iff_eq] at h
+      exact h.2
+    · rfl
+
+/-- standing in never changes a value: the list is rebuilt from nodes that hold exactly the new values -/
+theorem C08_keep_own_values (own vals : List Leaf) :
+    (keepOwnNodes own vals).map (·.val) = vals.map (·.val) := by
+  unfold keepOwnNodes
+  split
+  · rfl
+  · exact keepZip_vals own vals
+
+/-- **C08_recompress for the whole of `update_with_new_values`** (own nodes standing in for copies of themselves,
+    as the data-block importances hand them in): for ALL shortcut lists, ALL own node lists and ALL new value
+    lists the written words read as the new values. -/
+theorem C08_recompress_full (scs : List (Int × Sc)) (own vals : List Leaf) :
+    ∃ es vs, entries (MontePyVerif.Model.ListNode.format (updateWithNewValuesFull scs own vals)).words = some es ∧
+      expand es = some vs ∧ matchesAll vs (vals.map (·.val)) = true := by
+  obtain ⟨es, vs, h1, h2, h3⟩ := C08_recompress scs (keepOwnNodes own vals)
+  exact ⟨es, vs, h1, h2, by rw [← C08_keep_own_values own vals]; exact h3⟩
+
+/-- an unedited list handed in as copies (any relabelling `copy` that keeps type and value, with fresh identities)
+    is rebuilt from its own nodes, all of them, in order — so every shortcut can be bound again and tokens, paddings
+    and comments stay -/
+theorem C08_keep_own_unedited (own : List Leaf) (copy : Leaf → Leaf)
+    (hcopy : ∀ o, (copy o).ty = o.ty ∧ (copy o).val = o.val)
+    (hfresh : (own.map copy).any (fun v => own.any (fun o => o.id == v.id)) = false) :
+    keepOwnNodes own (own.map copy) = own := by
+  unfold keepOwnNodes
+  rw [hfresh]
+  simp only [Bool.false_eq_true, if_false]
+  clear hfresh
+  induction own with
+  | nil => rfl
+  | cons o rest ih =>
+    simp only [List.map_cons, keepZip, (hcopy o).1, (hcopy o).2, beq_self_eq_true, Bool.and_self, if_true, ih]
+
 end MontePyVerif.C08
